@@ -7,11 +7,11 @@ HOOK_COMMITS = subprocess.run(["git", "-C", "/repo", "log", "--format=%H %s", "-
 
 CHECKS = {
  "C01": dict(cat="exploration", design="§5 C01",
-   text="Round-trip + position oracle on ~1.4M generated texts per quick run: exhaustive token-class sequences up to length 3 over an 82-class alphabet that includes every error maker, grammar-generated programs under three trivia policies, token mutations, every prefix of the seed files, windows of the 39 vendored LLVM files, character noise, and preprocessor regions with junk. The property is universally quantified over all UTF-8 strings, so exploration with an exact oracle is the right level; no absence proof.",
+   text="Round-trip + position oracle on ~1.9M generated texts per quick run: exhaustive token-class sequences up to length 3 over a 93-class alphabet that includes every error maker, BOM/NUL/NBSP/VT/NEL/ZWSP/CR and nested-comment lexemes, grammar-generated programs under three trivia policies, token mutations, every prefix of the seed files, windows of the 39 vendored LLVM files, character noise, preprocessor regions with junk, 15 nesting shapes up to depth 250 and 10^4-fold token repetition. The property is universally quantified over all UTF-8 strings, so exploration with an exact oracle is the right level; no absence proof.",
    note="trusts rowan's text()/text_range(); explores short exhaustive + structured random inputs, not all strings",
    technique="property-based testing: round-trip oracle over exhaustive token-class sequences and grammar/mutation generators"),
  "C02": dict(cat="exploration", design="§5 C02",
-   text="Totality oracle (no panic/abort via catch_unwind + supervisor, deterministic step budget from the verif hook, linear work bound 24*(tokens+1)+256, well-formed error ranges/messages) over C01's space plus unterminated constructs at every token boundary, 12 nesting shapes up to depth 250 and 10^4-fold token repetition.",
+   text="Totality oracle (no panic/abort via catch_unwind + supervisor, deterministic step budget from the verif hook, linear work bound 24*(max(raw lexical tokens, tree tokens)+1)+256, well-formed error ranges/messages) over C01's space (which includes 15 nesting shapes up to depth 250 and 10^4-fold token repetition) plus unterminated constructs at every token boundary.",
    note="step counter hook counts lexer tokens and opened nodes; 256 MiB worker stacks (the server's 2 MiB stacks are not asserted); nesting > 256 skipped as documented non-goal",
    technique="property-based testing / fuzzing with a deterministic step-budget hook"),
  "C10": dict(cat="exploration", design="§5 C10",
@@ -19,11 +19,11 @@ CHECKS = {
    note="RefPos is the trusted reference; offsets strictly inside a CRLF pair are exempt from the round-trip clause, columns inside a surrogate pair and lines past the end are unspecified and skipped",
    technique="exhaustive small-scope enumeration + random texts against a reference model (differential)"),
  "C14": dict(cat="exploration", design="§5 C14",
-   text="Differential against RefLexer (written from the TableGen Programmer's Reference) on 100k generated sequences per quick run of spec-level token instances sampled over each class's regular language with boundary cases, joined by every separator kind (including nested block comments and no separator where the reference split is unchanged), plus an exhaustive vocabulary table (every keyword, operator and punctuation mark lexes alone to a distinct non-Id kind).",
+   text="Differential against RefLexer (written from the TableGen Programmer's Reference) on 500k generated sequences per quick run of spec-level token instances sampled over each class's regular language with boundary cases, joined by every separator kind (including nested block comments with random bodies over the delimiter characters, and no separator where the reference split is unchanged), the same differential on raw generated programs and the 47 real files, plus an exhaustive vocabulary table (every keyword, operator and punctuation mark lexes alone to a distinct non-Id kind).",
    note="RefLexer is the trusted reference for boundaries; kinds are checked by class membership, not by name",
    technique="property-based testing: generated token sequences, differential against a reference lexer"),
  "C15": dict(cat="exploration", design="§5 C15",
-   text="Exhaustive enumeration of all directive/marker sequences up to length 6 (thorough 7) over two macro names, evaluated by a reference preprocessor (RefPP): for well-nested inputs the delivered non-trivia tokens must be exactly the selected markers with zero errors; unterminated conditionals and nameless directives must be reported. Random nestings to depth 6 with CRLF and trailing comments.",
+   text="Exhaustive enumeration of all directive/marker sequences up to length 6 (thorough 7) over two macro names, evaluated by a reference preprocessor (RefPP): for well-nested inputs the delivered non-trivia tokens must be exactly the selected markers with zero errors; unterminated conditionals and nameless directives must be reported. Random nestings to depth 6 with CRLF and trailing comments; the same with lines of text that is not TableGen (unterminated strings, code fragments and comments, mid-line directives) placed in disabled regions; conditional regions embedded between the statements of generated programs (ide level: no declaration and no diagnostic from disabled text).",
    note="RefPP is the trusted reference; inputs with stray #else/#endif are not asserted",
    technique="exhaustive small-scope enumeration against a reference evaluator"),
  "C03": dict(cat="exploration", design="§5 C03",
@@ -39,7 +39,7 @@ CHECKS = {
    note="workspace = key set of diagnostics(); text of a file = what the harness' FileSystem served",
    technique="property-based testing: validity predicate over all query results"),
  "C07": dict(cat="exploration", design="§5 C07",
-   text="Differential oracle after every step of generated edit histories (1..12 operations over a 4-file workspace, 24 text variants per file covering every include subset, renames, moved includes, syntax/type errors, missing includes; server-style and API-style edits, root switches): the long-lived host's full query dump must equal a fresh host's. All ordered pairs of a first operation with a second are enumerated, longer histories are random.",
+   text="Differential oracle after every step of generated edit histories (1..12 operations over a 4-file workspace, 24 text variants per file covering every include subset, renames, moved includes, syntax/type errors, missing includes; server-style and API-style edits, root switches): the long-lived host's full query dump must equal a fresh host's. All ordered pairs of a first operation with a second are enumerated, longer histories are random; also histories over generated (SEM) programs with seven kinds of text variants, disk-only changes of included files, and didOpen/didChange/didClose histories through the real server compared with a fresh analysis of disk overlaid by the open buffers.",
    note="every edit is followed by set_root_file; hash-ordered result lists are compared sorted; FileIds are normalised to paths",
    technique="stateful property-based testing: history generation with a from-scratch differential oracle"),
  "C16": dict(cat="exploration", design="§5 C16",
@@ -47,23 +47,23 @@ CHECKS = {
    note="traversal-budget hook in collect_sources / Include::index; search order taken from the documentation",
    technique="exhaustive small-scope enumeration of configurations against a reference model"),
  "C20": dict(cat="exploration", design="§5 C20",
-   text="Exhaustive over the finite completion vocabularies in the four contexts x the lexer's tables (acceptance decided by running the server's lexer/parser, candidates harvested from lexer.rs and the reference operator list); class completion on generated multi-file workspaces at every parent-class position with 0..3 typed characters.",
+   text="Exhaustive over the finite completion vocabularies in the four contexts x the lexer's tables (acceptance decided by running the server's lexer/parser, candidates harvested from lexer.rs and the reference operator list); class completion on generated multi-file workspaces (template parameters of seven types with type-correct defaults of several shapes, redeclarations) at every parent-class position with 0..3 typed characters.",
    note="eight vocabulary mismatches are pinned by a snapshot test and listed as known findings (exact spelling signatures)",
    technique="exhaustive enumeration of vocabularies + property-based testing of class completion"),
  "C05": dict(cat="exploration", design="§5 C05",
-   text="Expected use->declaration map known by construction: a scope-tracking generator (SEM) emits well-scoped multi-file programs covering every declaration kind and the use positions the indexer visits, with shadowing, optional syntax present/absent and use-after-scope probes; goto_definition is checked at three offsets of every identifier, references as exact sets, probes must not resolve and must be diagnosed. 5000 programs per quick run.",
+   text="Expected use->declaration map known by construction: a scope-tracking generator (SEM) emits well-scoped multi-file programs covering every declaration kind and the use positions the indexer visits, with shadowing (same-kind and cross-kind: a field or template argument named like an outer variable), optional syntax present/absent and use-after-scope probes; goto_definition is checked at three offsets of every identifier, references as exact sets, probes must not resolve and must be diagnosed. 25000 programs per quick run.",
    note="the generator's scoping rules were audited against llvm-tblgen-14; uses of a field after a let override may resolve to the declaration or an override identifier; reference sets of overridden fields are not asserted",
    technique="property-based testing with a by-construction oracle (scope-tracking program generator)"),
  "C13": dict(cat="fault_enumeration", design="§5 C13",
-   text="Soundness: 5000 well-formed SEM programs per quick run must produce no diagnostic in any file. Completeness: eleven fault classes (undefined class / multiclass / identifier, missing include, dropped and surplus template argument, type-incompatible value, operator arity +1/-1, deleted token in root / in an included file) are seeded one at a time at a generated eligible site; a diagnostic must intersect the site in the seeded file, and faults in the root must leave the included files clean.",
+   text="Soundness: 20000 well-formed SEM programs per quick run must produce no diagnostic in any file. Completeness: twelve fault classes (undefined class / multiclass / identifier / field, missing include, dropped and surplus template argument, type-incompatible value, operator arity +1/-1, deleted token in root / in an included file) are seeded one at a time at a generated eligible site; a diagnostic must intersect the site in the seeded file, and faults in the root must leave the included files clean.",
    note="well-formedness audited against llvm-tblgen-14 on its feature subset; token deletions restricted to ';', '=' (not before '{') and ':' whose absence is locally detectable; type faults use literals for which no TableGen conversion exists",
    technique="property-based testing + single-fault seeding over generated programs"),
  "C18": dict(cat="exploration", design="§5 C18",
-   text="Outline and folding expectations known by construction from the SEM generator (statement extents, declaring identifiers, template arguments, declared/overridden fields, defset membership) compared exactly with document_symbol and folding_range for every file of 5000 programs per quick run.",
+   text="Outline and folding expectations known by construction from the SEM generator (statement extents, declaring identifiers, template arguments, declared/overridden fields, defset membership incl. nested defsets and blocks inside defsets) compared exactly with document_symbol and folding_range for every file of 25000 programs per quick run.",
    note="outline entries of defs inside multiclass bodies and of defs named by a paste expression are not asserted",
    technique="property-based testing with a by-construction oracle"),
  "C19": dict(cat="exploration", design="§5 C19",
-   text="Hover (signature content, doc-comment extraction, use = declaration) at every identifier occurrence and inlay hints (exact set over the whole file; subset and in-range for every statement range, every class-name-only range and random ranges) against expectations recorded by the SEM generator; 5000 programs per quick run.",
+   text="Hover (signature content, doc-comment extraction, use = declaration) at every identifier occurrence and inlay hints (exact set over the whole file; subset and in-range for every statement range, every class-name-only range and random ranges) against expectations recorded by the SEM generator; 25000 programs per quick run (a quarter in CRLF form).",
    note="label/signature formatting matched by containment; hints of multiclass references not asserted; fields overridden by let are exempt from the use=declaration clause",
    technique="property-based testing with a by-construction oracle"),
  "C08": dict(cat="exploration", design="§5 C08",
@@ -71,19 +71,19 @@ CHECKS = {
    note="liveness = completes under every enumerated schedule of these bounded scenarios at hook granularity; preemption-bounded, not all interleavings; OS pre-emption inside lock implementations is not controlled; timeouts without blocked-thread evidence are inconclusive",
    technique="schedule enumeration (stateless DFS, preemption-bounded) with a controlled scheduler + randomized stress"),
  "C09": dict(cat="exploration", design="§5 C09",
-   text="2000 generated multi-file sessions per quick run against the real server with per-file line structure (pushed-down headers, CRLF, non-ASCII): every range/location in definition, references, documentSymbol, foldingRange, documentLink, inlayHint answers and in published diagnostics is compared with the ide-level result converted by the independent reference position mapper against the text of the file it names.",
+   text="2000 generated multi-file sessions per quick run against the real server with per-file line structure (pushed-down headers, CRLF, non-ASCII): every range/location in definition, references, documentSymbol, foldingRange, documentLink, inlayHint answers and in published diagnostics is compared with the ide-level result converted by the independent reference position mapper against the text of the file it names; each session then sends a second revision of the root with the same bytes and moved line breaks and compares what the client holds again.",
    note="isolates server.rs/to_proto.rs/from_proto.rs: a wrong range computed by the ide layer appears on both sides",
    technique="property-based testing: differential between the server's JSON and an ide-level oracle through a reference position mapper"),
  "C11": dict(cat="exploration", design="§5 C11",
-   text="Histories of didOpen/didChange (all first-step x second-step pairs over 24 text variants, random histories up to 8 steps, back-to-back bursts) observed through the publishDiagnostics stream in lock-step; after every step the last publication per URI must equal a fresh analysis of the current state (empty for files outside the workspace) and versions must not decrease.",
+   text="Histories of didOpen/didChange (all first-step x second-step pairs over 24 text variants, each variant in 3 line layouts of the same bytes, re-layout pairs, random histories up to 8 steps, back-to-back bursts) observed through the publishDiagnostics stream in lock-step; after every step the last publication per URI must equal a fresh analysis of the current state (empty for files outside the workspace) and versions must not decrease.",
    note="buffer = disk in this check (C12 covers the difference); idle = all spawned tasks ended + barrier request",
    technique="stateful property-based testing against a from-scratch oracle"),
  "C12": dict(cat="exploration", design="§5 C12",
-   text="Exhaustive enumeration of all sessions of up to 4 (thorough 5) open/change/close events, each with the included document on disk and never saved, over a root and an included document whose disk and buffer texts differ observably, compared after every step with a reference session model (disk overlaid by open buffers, root = last touched).",
+   text="Exhaustive enumeration of all sessions of up to 4 (thorough 6) open/change/close/save events, each with the included document on disk, never saved, and including the root back (include cycle through every edited document), over a root and an included document whose disk and buffer texts differ observably, compared after every step with a reference session model (disk overlaid by open buffers, root = last touched).",
    note="a close triggers no analysis; its effect (disk text is the truth again) is checked at the next analysed step",
    technique="exhaustive small-scope enumeration of sessions against a reference model"),
  "C04": dict(cat="exploration", design="§5 C04",
-   text="Positive: 10000 grammar-generated sentences per quick run (three trivia policies) must parse with zero errors and mirror their derivation tree, including what each of the 103 typed accessors of ast.rs returns; the 39 vendored LLVM files and the seed files must parse cleanly. Negative: 15000 one/two-token edits classified by an independent Earley recogniser over token classes against two grammars (G_min: documented grammar; G_max: plus everything plausibly legal): derivable => zero errors, not derivable even from G_max => at least one error.",
+   text="Positive: 10000 grammar-generated sentences per quick run (three trivia policies; object names with operators, lists, class values and suffixes) must parse with zero errors and mirror their derivation tree, including what each of the 103 typed accessors of ast.rs returns; the 39 vendored LLVM files and the seed files must parse cleanly. Negative: 15000 one/two-token edits classified by an independent Earley recogniser over token classes against two grammars (G_min: documented grammar; G_max: plus everything plausibly legal): derivable => zero errors, not derivable even from G_max => at least one error.",
    note="the Earley grammars are my transcription of syntax.md and the rule comments (self-checked: every generated sentence is in G_max); 'in between' inputs are not asserted",
    technique="grammar-based generation + mutation with an independent Earley recogniser as oracle"),
 }
